@@ -38,3 +38,70 @@ func (e *Engine) intrinsic2(st *State, fr *Frame, fn *ssa.Function, args []Value
 func (e *Engine) schedSleep(st *State, fr *Frame, d *Term, pos token.Pos) []exit {
 	return retExit(st, nil)
 }
+
+func init() {
+	// internal/bytealg: assembly routines, given their documented semantics on concrete or symbolic bytes
+	indexByte := func(e *Engine, b []*Term, c *Term) *Term {
+		// first index i with b[i] == c, else -1
+		res := e.bv64(-1)
+		for i := len(b) - 1; i >= 0; i-- {
+			res = e.tc.Ite(e.tc.Eq(b[i], c), e.bv64(int64(i)), res)
+		}
+		return res
+	}
+	stubs["internal/bytealg.IndexByteString"] = func(e *Engine, st *State, fr *Frame, fn *ssa.Function, args []Value, pos token.Pos) []exit {
+		s := args[0].(StrV)
+		if s.Opaque {
+			panic(unsupported("IndexByteString on opaque string"))
+		}
+		return retExit(st, indexByte(e, s.B, args[1].(*Term)))
+	}
+	stubs["internal/bytealg.IndexByte"] = func(e *Engine, st *State, fr *Frame, fn *ssa.Function, args []Value, pos token.Pos) []exit {
+		return retExit(st, indexByte(e, e.bytesOf(st, args[0].(SliceV)), args[1].(*Term)))
+	}
+	stubs["internal/bytealg.IndexString"] = func(e *Engine, st *State, fr *Frame, fn *ssa.Function, args []Value, pos token.Pos) []exit {
+		a, ok1 := args[0].(StrV).Concrete()
+		b, ok2 := args[1].(StrV).Concrete()
+		if !ok1 || !ok2 {
+			panic(unsupported("bytealg.IndexString on symbolic text"))
+		}
+		return retExit(st, e.bv64(int64(stringsIndex(a, b))))
+	}
+	stubs["internal/bytealg.CountString"] = func(e *Engine, st *State, fr *Frame, fn *ssa.Function, args []Value, pos token.Pos) []exit {
+		s := args[0].(StrV)
+		n := e.bv64(0)
+		for _, b := range s.B {
+			n = e.tc.BVAdd(n, e.tc.Ite(e.tc.Eq(b, args[1].(*Term)), e.bv64(1), e.bv64(0)))
+		}
+		return retExit(st, n)
+	}
+	stubs["internal/bytealg.Count"] = func(e *Engine, st *State, fr *Frame, fn *ssa.Function, args []Value, pos token.Pos) []exit {
+		n := e.bv64(0)
+		for _, b := range e.bytesOf(st, args[0].(SliceV)) {
+			n = e.tc.BVAdd(n, e.tc.Ite(e.tc.Eq(b, args[1].(*Term)), e.bv64(1), e.bv64(0)))
+		}
+		return retExit(st, n)
+	}
+	stubs["internal/bytealg.Equal"] = func(e *Engine, st *State, fr *Frame, fn *ssa.Function, args []Value, pos token.Pos) []exit {
+		a, b := args[0].(SliceV), args[1].(SliceV)
+		x, y := e.sliceElems(st, a), e.sliceElems(st, b)
+		if len(x) != len(y) {
+			return retExit(st, e.tc.False)
+		}
+		r := e.tc.True
+		for i := range x {
+			r = e.tc.And(r, e.tc.Eq(x[i].(*Term), y[i].(*Term)))
+		}
+		return retExit(st, r)
+	}
+	stubs["bytes.Equal"] = stubs["internal/bytealg.Equal"]
+}
+
+func stringsIndex(a, b string) int {
+	for i := 0; i+len(b) <= len(a); i++ {
+		if a[i:i+len(b)] == b {
+			return i
+		}
+	}
+	return -1
+}
